@@ -793,12 +793,22 @@ func first(a, _ []byte) []byte { return a }
 // Transform is modelled as returning two fresh byte slices (original bytes, sort key) and
 // writing only the codec's own scratch (src, the collate.Buffer) - nothing of the tree.
 
+// The body is verified against a model of x/text/collate (govc/call.go): Buffer.Reset empties the
+// scratch, Collator.Key appends a sort key of arbitrary length and content to it and returns the
+// appended region - storage of the buffer (allocation class 1001), not an ordinary byte object.
+//   owned:           both results are ordinary byte objects allocated by this call - in particular
+//                    the sort key is copied out of the buffer, so a stored leaf never aliases it
+//   scratch_bounded: afterwards the buffer holds this key's sort key and nothing else: what the
+//                    codec retains is bounded by the last key, not by the number of calls (C17)
 //@ func (*CollationOrderKey[K]).Transform
-//@   requires cok != nil
+//@   opt bind K=string
+//@   requires cok != nil && cok.buf != nil && cok.c != nil
 //@   ensures[fresh] fresh(result0) && fresh(result1) && result0.obj != result1.obj && result0.off == 0 && result1.off == 0 && cap(result0) == len(result0) && cap(result1) == len(result1)
-//@   ensures[frame] frame()
-//@   ensures[allocs_bytes_only] forallref(o, implies(allocated(o) && !old(allocated(o)), atype(o) == 1000))
-//@   assigns B collationSortedTree.cok.src
+//@   ensures[owned] atype(result0.obj) == 1000 && atype(result1.obj) == 1000
+//@   ensures[scratch_bounded] scratchLen(cok.buf) == len(result1)
+//@   ensures[frame] frameExcept("CollationOrderKey.src", "collationSortedTree.cok.src")
+//@   ensures[allocs_bytes_only] forallref(o, implies(allocated(o) && !old(allocated(o)), atype(o) == 1000 || atype(o) == 1001))
+//@   assigns B blen collationSortedTree.cok.src CollationOrderKey.src collateBuf.len
 
 //@ func (*collateLeafNode[V]).getKey
 //@   inline
